@@ -643,6 +643,29 @@ def gen_c12(rng, thorough=False):
                     r += 1
                     steps += [rand_request(rng, r, timeout=10, unit=1), tick(10)]
                 scs.append(scenario(len(scs), steps, max_timeouts=N, tag=f"c12-count-per-connection-{how}"))
+    # a device that always answers too late: every request times out and the late reply to its predecessor (a frame that
+    # is discarded, not an outcome) arrives while it waits -- the run of timeouts is still a run, the limit is reached at N
+    for N in (2, 3, 5):
+        for kind in ("late-reply", "late-exception", "unsolicited"):
+            steps = [cmd("enable")]
+            prev = None
+            for r in range(1, N + 2):
+                st = rand_request(rng, r, timeout=10, unit=1)
+                steps.append(st)
+                if prev is not None:
+                    steps.append(tick(3))
+                    if kind == "late-reply":
+                        steps.append(reply(good_reply(rng, prev), unit=1, txrel=-1))
+                    elif kind == "late-exception":
+                        steps.append(reply([prev["fc"] + 128, 4], unit=1, txrel=-1))
+                    else:
+                        steps.append(reply([3, 2, 0, 1], unit=1, txrel=9))
+                    steps.append(tick(7))
+                else:
+                    steps.append(tick(10))
+                prev = st
+            steps += [cmd("new_conn"), rand_request(rng, 50, timeout=10, unit=1), tick(10)]
+            scs.append(scenario(len(scs), steps, max_timeouts=N, tag=f"c12-limit{N}-discarded-frames-are-not-outcomes-{kind}"))
     # a partial frame precedes a disconnect; the next connection's timely replies must succeed
     for cut in (1, 3, 6, 7, 9):
         for how in ("eof", "rerr"):
